@@ -273,6 +273,9 @@ func TestZzVerifReplay(t *testing.T) {
 		"VERIF_REPLAY="+replayPath)
 	ob, _ := cmd.CombinedOutput()
 	out = string(ob)
+	if os.Getenv("VERIF_REPLAY_STACK") != "" {
+		fmt.Println(out)
+	}
 	for _, l := range strings.Split(out, "\n") {
 		if strings.HasPrefix(l, "REPLAY-RESULT ") {
 			var f, m []string
